@@ -1,0 +1,134 @@
+//! Read-only view of the (crate-private) steps of a [`ChannelMonitorUpdate`], so that an external
+//! observer can tie each persisted update to the messages that depend on it.
+use crate::chain::channelmonitor::{ChannelMonitorUpdate, ChannelMonitorUpdateStep};
+use crate::ln::chan_utils::{CommitmentTransaction, HTLCOutputInCommitment};
+
+#[derive(Clone, Debug)]
+pub struct HtlcInfo {
+	pub offered: bool,
+	pub amount_msat: u64,
+	pub cltv_expiry: u32,
+	pub payment_hash: [u8; 32],
+}
+
+#[derive(Clone, Debug)]
+pub struct CommitmentInfo {
+	pub commitment_number: u64,
+	pub feerate_per_kw: u32,
+	pub to_broadcaster_value_sat: u64,
+	pub to_countersignatory_value_sat: u64,
+	pub nondust_htlcs: Vec<HtlcInfo>,
+}
+
+#[derive(Clone, Debug)]
+pub enum StepView {
+	HolderCommitment { commitments: Vec<CommitmentInfo>, dust_htlcs: Vec<HtlcInfo>, claimed: usize },
+	CounterpartyCommitment { commitments: Vec<CommitmentInfo>, dust_htlcs: Vec<HtlcInfo> },
+	PaymentPreimage { preimage: [u8; 32], has_payment_info: bool },
+	CommitmentSecret { idx: u64, secret: [u8; 32] },
+	ChannelForceClosed { should_broadcast: bool },
+	ShutdownScript,
+	ReleasePaymentComplete,
+	Other(&'static str),
+}
+
+fn htlc(h: &HTLCOutputInCommitment) -> HtlcInfo {
+	HtlcInfo {
+		offered: h.offered,
+		amount_msat: h.amount_msat,
+		cltv_expiry: h.cltv_expiry,
+		payment_hash: h.payment_hash.0,
+	}
+}
+
+fn commitment(c: &CommitmentTransaction) -> CommitmentInfo {
+	CommitmentInfo {
+		commitment_number: c.commitment_number(),
+		feerate_per_kw: c.negotiated_feerate_per_kw(),
+		to_broadcaster_value_sat: c.to_broadcaster_value_sat(),
+		to_countersignatory_value_sat: c.to_countersignatory_value_sat(),
+		nondust_htlcs: c.nondust_htlcs().iter().map(htlc).collect(),
+	}
+}
+
+/// The steps of `update`, in order.
+pub fn steps(update: &ChannelMonitorUpdate) -> Vec<StepView> {
+	update
+		.updates
+		.iter()
+		.map(|s| match s {
+			ChannelMonitorUpdateStep::LatestHolderCommitmentTXInfo {
+				commitment_tx,
+				htlc_outputs,
+				claimed_htlcs,
+				..
+			} => StepView::HolderCommitment {
+				commitments: vec![commitment(commitment_tx)],
+				dust_htlcs: htlc_outputs
+					.iter()
+					.filter(|(h, _, _)| h.transaction_output_index.is_none())
+					.map(|(h, _, _)| htlc(h))
+					.collect(),
+				claimed: claimed_htlcs.len(),
+			},
+			ChannelMonitorUpdateStep::LatestHolderCommitment {
+				commitment_txs,
+				htlc_data,
+				claimed_htlcs,
+			} => StepView::HolderCommitment {
+				commitments: commitment_txs.iter().map(|c| commitment(c)).collect(),
+				dust_htlcs: htlc_data.dust_htlcs.iter().map(|(h, _)| htlc(h)).collect(),
+				claimed: claimed_htlcs.len(),
+			},
+			ChannelMonitorUpdateStep::LatestCounterpartyCommitmentTXInfo {
+				htlc_outputs,
+				commitment_number,
+				feerate_per_kw,
+				to_broadcaster_value_sat,
+				to_countersignatory_value_sat,
+				..
+			} => StepView::CounterpartyCommitment {
+				commitments: vec![CommitmentInfo {
+					commitment_number: *commitment_number,
+					feerate_per_kw: feerate_per_kw.unwrap_or(0),
+					to_broadcaster_value_sat: to_broadcaster_value_sat.unwrap_or(0),
+					to_countersignatory_value_sat: to_countersignatory_value_sat.unwrap_or(0),
+					nondust_htlcs: htlc_outputs
+						.iter()
+						.filter(|(h, _)| h.transaction_output_index.is_some())
+						.map(|(h, _)| htlc(h))
+						.collect(),
+				}],
+				dust_htlcs: htlc_outputs
+					.iter()
+					.filter(|(h, _)| h.transaction_output_index.is_none())
+					.map(|(h, _)| htlc(h))
+					.collect(),
+			},
+			ChannelMonitorUpdateStep::LatestCounterpartyCommitment { commitment_txs, htlc_data } => {
+				StepView::CounterpartyCommitment {
+					commitments: commitment_txs.iter().map(commitment).collect(),
+					dust_htlcs: htlc_data.dust_htlcs.iter().map(|(h, _)| htlc(h)).collect(),
+				}
+			},
+			ChannelMonitorUpdateStep::PaymentPreimage { payment_preimage, payment_info } => {
+				StepView::PaymentPreimage {
+					preimage: payment_preimage.0,
+					has_payment_info: payment_info.is_some(),
+				}
+			},
+			ChannelMonitorUpdateStep::CommitmentSecret { idx, secret } => {
+				StepView::CommitmentSecret { idx: *idx, secret: *secret }
+			},
+			ChannelMonitorUpdateStep::ChannelForceClosed { should_broadcast } => {
+				StepView::ChannelForceClosed { should_broadcast: *should_broadcast }
+			},
+			ChannelMonitorUpdateStep::ShutdownScript { .. } => StepView::ShutdownScript,
+			ChannelMonitorUpdateStep::RenegotiatedFunding { .. } => StepView::Other("RenegotiatedFunding"),
+			ChannelMonitorUpdateStep::RenegotiatedFundingLocked { .. } => {
+				StepView::Other("RenegotiatedFundingLocked")
+			},
+			ChannelMonitorUpdateStep::ReleasePaymentComplete { .. } => StepView::ReleasePaymentComplete,
+		})
+		.collect()
+}
